@@ -16,7 +16,7 @@ pub fn property() -> Property {
     Property {
         id: "C06",
         level: "fault_enumeration",
-        rule: "Payloads (empty, 1 byte, text, incompressible, highly repetitive up to 1 MiB, > 64 KiB) are compressed by reference encoders (flate2 levels 0-9 => stored and dynamic blocks; hand-written encoder => stored and fixed-Huffman blocks; gzip headers with FNAME/FCOMMENT/FEXTRA/FHCRC) and served with coding declarations in any letter case, alone or in a list, in Content-Encoding or Transfer-Encoding, under every framing, segmentation and read plan; unknown codings (br, identity, x-gzip, none) must pass through byte-for-byte; the Accept-Encoding field on the wire must be present iff compression is allowed. Faults: EVERY truncation offset of the compressed stream of 10 fixed streams (exhaustive; framing adjusted so that only the compression layer can notice, or left short), EVERY single-bit flip of the 8 gzip trailer bytes, bit flips in the deflate body (gzip: Err or identical payload). Oracle: payload is ground truth; prefix rule after every read; damaged stream must end with Err. Non-trivial: compressed stream non-empty; distinct = hash(wire, fault, segmentation, plan).",
+        rule: "Payloads (empty, 1 byte, text, incompressible, highly repetitive up to 1 MiB, > 64 KiB) are compressed by reference encoders (flate2 levels 0-9 => stored and dynamic blocks; hand-written encoder => stored and fixed-Huffman blocks; gzip headers with FNAME/FCOMMENT/FEXTRA/FHCRC) and served with coding declarations in any letter case, alone or in a list, in Content-Encoding or Transfer-Encoding, under every framing, segmentation and read plan; unknown codings (br, identity, x-gzip, none) must pass through byte-for-byte; the Accept-Encoding field on the wire must be present iff compression is allowed. Faults: EVERY truncation offset of the compressed stream of 10 fixed streams (exhaustive; framing adjusted so that only the compression layer can notice - with Content-Length framing the REST of the compressed stream follows the frame on the connection and must not reach the decoder -, or left short), EVERY single-bit flip of the 8 gzip trailer bytes, bit flips in the deflate body (gzip: Err or identical payload). Oracle: payload is ground truth; prefix rule after every read; damaged stream must end with Err. Non-trivial: compressed stream non-empty; distinct = hash(wire, fault, segmentation, plan).",
         assumptions: &["zlib-wrapped deflate and multi-member gzip are not generated (not fixed by the statement)", "flips inside a raw deflate body are not judged (no integrity check exists there)"],
         min_nontrivial: |t| t.pick(3_000, 60_000),
         gens,
